@@ -442,6 +442,16 @@ theorem C29_cx_3d_border_label :
     ∃ e ∈ extents cx3dBorder, e.what = "border-label" ∧ enclosed slack (boundingBox Cfg.v0 cx3dBorder) e.box = false := by
   refine ⟨⟨"border-label", ⟨55, 25 / 2, 95, 65 / 2⟩⟩, by decide +kernel, rfl, by decide +kernel⟩
 
+/-- a 3D hexagon with an outside-right label: the drawn box is 15 wider, `BoundingBox` shifts the label by 15/2 = 7 -/
+def cx3dHexagon : Diagram :=
+  { shapes := [{ id := "h", type := "hexagon", w := 100, h := 60, threeDee := true,
+                 label := some ⟨"OUTSIDE_RIGHT_MIDDLE", 40, 20⟩ }], conns := [] }
+
+theorem C29_cx_3d_hexagon_outside_right :
+    (boundingBox Cfg.v0 cx3dHexagon).x2 = 152 ∧
+    ∃ e ∈ extents cx3dHexagon, e.what = "outside-label" ∧ e.box.x2 = 160 ∧ enclosed slack (boundingBox Cfg.v0 cx3dHexagon) e.box = false := by
+  refine ⟨by decide +kernel, ⟨"outside-label", ⟨120, 33 / 2, 160, 73 / 2⟩⟩, by decide +kernel, rfl, rfl, by decide +kernel⟩
+
 /-- an icon with a border position straddles the border; `BoundingBox` knows only OUTSIDE_* icons -/
 def cxBorderIcon : Diagram :=
   { shapes := [{ id := "a", w := 100, h := 100, inner := ⟨0, 0, 100, 100⟩, innerBB := ⟨0, 0, 100, 100⟩,
@@ -618,8 +628,9 @@ theorem C29_bbox_encloses_fixed_partial (cfg : Cfg) (hcfg : cfg.labelOnGrownBox 
 /-- the four label counterexamples disappear under the fixed variant -/
 theorem C29_fix_resolves_label_counterexamples :
     (∀ e ∈ extents cxMultiple, enclosed slack (boundingBox Cfg.v1 cxMultiple) e.box = true) ∧
-    (∀ e ∈ extents cx3dBorder, enclosed slack (boundingBox Cfg.v1 cx3dBorder) e.box = true) := by
-  refine ⟨by decide +kernel, by decide +kernel⟩
+    (∀ e ∈ extents cx3dBorder, enclosed slack (boundingBox Cfg.v1 cx3dBorder) e.box = true) ∧
+    (∀ e ∈ extents cx3dHexagon, enclosed slack (boundingBox Cfg.v1 cx3dHexagon) e.box = true) := by
+  refine ⟨by decide +kernel, by decide +kernel, by decide +kernel⟩
 
 /-- Non-vacuity: a board with a shadowed shape, a labelled connection and a regular outside label meets the hypotheses -/
 example :
